@@ -97,9 +97,11 @@ pub fn scenario(t: &mut Tape, strict_only: bool, dup: u32) -> (GProg, std::colle
         for k in kinds {
             let (pattern, cap) = DEFINERS[k];
             let c = |ids: &mut Ids| Expr::Capture { id: ids.next(), name: cap.to_string() };
-            let value = match t.choose(4) {
+            let value = match t.weighted(&[2, 2, 1, 4]) {
                 0 => Expr::Str(format!("{}@{}", name, k)),
                 1 => c(&mut ids),
+                // a variable whose own value is #null is still the node's own variable
+                2 => Expr::Null,
                 _ => Expr::Call {
                     func: "format".into(),
                     args: vec![
